@@ -261,3 +261,72 @@ func Verif_C15_work_type_spelling() {
 	}
 	verifapi.Assert("no-lock-left-held", verifapi.HeldLocks() == 0)
 }
+
+// Verif_C15_remote_signed_unit: a REMOTE unit submitted with or without work signing (its remote work
+// type is not a type registered on this node - the usual controller-node situation), then a cancel,
+// release, force-release or results command for it over any connection kind with the token absent,
+// empty, bad or good. With signing asked for, a command that does not come over the Unix socket takes
+// effect only with a valid token; without signing a token is refused. Refusal means no effect.
+func Verif_C15_remote_signed_unit() {
+	dir := verifapi.TempDir()
+	wk := verifWorkceptor(dir)
+	wk.w.VerifyingKey = "/keys/pub.pem"
+	thePub := &rsa.PublicKey{E: 65537}
+	verifapi.Redirect("github.com/ansible/receptor/pkg/certificates.LoadPublicKey", func(filename string, osw certificates.Oser) (*rsa.PublicKey, error) {
+		return thePub, nil
+	})
+	verifapi.Redirect("github.com/golang-jwt/jwt/v4.ParseWithClaims", func(tokenString string, claims jwt.Claims, keyFunc jwt.Keyfunc, options ...jwt.ParserOption) (*jwt.Token, error) {
+		if tokenString != "good" {
+			return nil, fmt.Errorf("signature is invalid")
+		}
+		rc := claims.(*jwt.RegisteredClaims)
+		rc.Audience = []string{"A"}
+		return &jwt.Token{Valid: true, Claims: claims}, nil
+	})
+	signWork := verifapi.Bool()
+	verifapi.FixRandom("unit0071")
+	unit, err := wk.w.AllocateRemoteUnit("R", "echo", "tls", "", signWork, map[string]string{})
+	verifapi.Assert("allocated", err == nil)
+	verifapi.Assert("stdout-written", os.WriteFile(unit.UnitDir()+"/stdout", []byte("xy"), 0o600) == nil)
+	unit.UpdateBasicStatus(WorkStateSucceeded, "done", 2)
+	verifapi.Quiesce()
+	network := []string{"unix", "tcp", "netceptor-A"}[verifapi.Choose(3)]
+	sub := []string{"cancel", "release", "force-release", "results"}[verifapi.Choose(4)]
+	sigMode := verifapi.Choose(4) // absent, empty, bad, good
+	cfg := map[string]interface{}{"command": "work", "subcommand": sub, "unitid": unit.ID()}
+	switch sigMode {
+	case 1:
+		cfg["signature"] = ""
+	case 2:
+		cfg["signature"] = "bad"
+	case 3:
+		cfg["signature"] = "good"
+	}
+	if sub == "results" {
+		cfg["startpos"] = float64(0)
+	}
+	opsBefore := verifapi.FSOps()
+	cfo := verifNewCFO(network)
+	_, cerr := wk.verifCommand(cfo, cfg)
+	verifapi.Quiesce()
+	var allowed bool
+	if signWork {
+		allowed = verifapi.Any(network == "unix", sigMode == 3)
+	} else {
+		allowed = sigMode <= 1
+	}
+	if !allowed {
+		verifapi.Cover("refused")
+		verifapi.Assert("unauthorised-command-on-a-remote-unit-refused", cerr != nil)
+		_, still := wk.w.activeUnits[unit.ID()]
+		verifapi.Assert("unauthorised-command-on-a-remote-unit-has-no-effect", verifapi.All(still, verifapi.FSOps() == opsBefore,
+			len(*cfo.messages) == 0, len(*cfo.streamed) == 0))
+	} else {
+		verifapi.Cover("allowed")
+		if sub == "results" {
+			verifapi.Assert("authorised-results-delivered", verifapi.Any(len(*cfo.messages) > 0, len(*cfo.streamed) > 0))
+		}
+	}
+	wk.cancel()
+	verifapi.Quiesce()
+}
